@@ -47,7 +47,9 @@ Record st := mkSt {
   ad2 : Z;                     (* ad2 = Instance(IProto, adapt="default"): -1 = the default None *)
   oreg : nat;                  (* how many times the observer with the user filter match(flt) is registered *)
   zz : list Z;                 (* values of the traits zz0, zz1, ... added with add_trait (the filter matches them) *)
-  ade : Z                      (* ade = Either(Supports(IProto), Instance(Q)): stored atom, -5 = None *)
+  ade : Z;                     (* ade = Either(Supports(IProto), Instance(Q)): stored atom, -5 = None *)
+  pv : option Z;               (* pv = PrototypedFrom("deleg"): the local copy; None = still linked to the prototype *)
+  dpv : Z                      (* deleg.pv = V(): the prototype's own value *)
 }.
 
 Inductive op :=
@@ -69,9 +71,12 @@ Inductive op :=
 | AddZ                                     (* add_trait("zz<n>", Int()) *)
 | SetZ (i : nat) (v : Z)                   (* assign the i-th added trait (index taken modulo their number) *)
 | SetAdE (chain : nat) (v : Z)             (* adaptation as one alternative of a compound trait *)
-| Opaque (tag : nat).                      (* an operation outside the model (observer registration with a user filter,
-                                              add_trait, ...): no effect on the modelled fields; only the law on the
-                                              implementation's observations (faulted object vs twin) speaks about it *)
+| Opaque (tag : nat)                       (* an operation outside the model (the synchronised partners): no effect on the
+                                              modelled fields; only the law on the implementation's observations
+                                              (faulted object vs twin) speaks about it *)
+| SetPV (v : Z)                            (* a.pv = v: validated by the prototype's trait, stored locally; breaks the link *)
+| SetDPV (v : Z)                           (* a.deleg.pv = v: forwarded to a's handler while a holds no local copy *)
+| DelPV.                                   (* del a.pv: drops the local copy, restores the link *)
 
 (* handler identities *)
 Definition H_x_static := 0%nat.     (* _x_changed *)
@@ -81,6 +86,7 @@ Definition H_l_static := 3%nat.     (* _l_items_changed *)
 Definition H_l_observe := 4%nat.    (* observe(h, 'l:items') *)
 Definition H_y_static := 5%nat.     (* _y_changed *)
 Definition H_z_observe := 6%nat.    (* the observer registered with the user filter *)
+Definition H_pv_dynamic := 9%nat.   (* on_trait_change(h, 'pv') on the deferring object (7, 8: outside the model) *)
 
 Definition logent := (nat * Z * Z)%type.
 
@@ -151,21 +157,24 @@ Section WithCallbacks.
   Definition run_handlers (pl : plan) (hs : list nat) (a b : Z) : list logent :=
     map (fun j => (j, a, b)) (filter (fun j => negb (handler_fault pl j)) hs).
 
-  Definition set_x v s0 := mkSt v (t s0) (l s0) (d s0) (s s0) (f s0) (m s0) (p s0) (c s0) (ad s0) (y s0) (ad2 s0) (oreg s0) (zz s0) (ade s0).
-  Definition set_t v s0 := mkSt (x s0) v (l s0) (d s0) (s s0) (f s0) (m s0) (p s0) (c s0) (ad s0) (y s0) (ad2 s0) (oreg s0) (zz s0) (ade s0).
-  Definition set_l v s0 := mkSt (x s0) (t s0) v (d s0) (s s0) (f s0) (m s0) (p s0) (c s0) (ad s0) (y s0) (ad2 s0) (oreg s0) (zz s0) (ade s0).
-  Definition set_d v s0 := mkSt (x s0) (t s0) (l s0) v (s s0) (f s0) (m s0) (p s0) (c s0) (ad s0) (y s0) (ad2 s0) (oreg s0) (zz s0) (ade s0).
-  Definition set_s v s0 := mkSt (x s0) (t s0) (l s0) (d s0) v (f s0) (m s0) (p s0) (c s0) (ad s0) (y s0) (ad2 s0) (oreg s0) (zz s0) (ade s0).
-  Definition set_f v s0 := mkSt (x s0) (t s0) (l s0) (d s0) (s s0) v (m s0) (p s0) (c s0) (ad s0) (y s0) (ad2 s0) (oreg s0) (zz s0) (ade s0).
-  Definition set_m v s0 := mkSt (x s0) (t s0) (l s0) (d s0) (s s0) (f s0) v (p s0) (c s0) (ad s0) (y s0) (ad2 s0) (oreg s0) (zz s0) (ade s0).
-  Definition set_p v s0 := mkSt (x s0) (t s0) (l s0) (d s0) (s s0) (f s0) (m s0) v (c s0) (ad s0) (y s0) (ad2 s0) (oreg s0) (zz s0) (ade s0).
-  Definition set_c v s0 := mkSt (x s0) (t s0) (l s0) (d s0) (s s0) (f s0) (m s0) (p s0) v (ad s0) (y s0) (ad2 s0) (oreg s0) (zz s0) (ade s0).
-  Definition set_ad v s0 := mkSt (x s0) (t s0) (l s0) (d s0) (s s0) (f s0) (m s0) (p s0) (c s0) v (y s0) (ad2 s0) (oreg s0) (zz s0) (ade s0).
-  Definition set_y v s0 := mkSt (x s0) (t s0) (l s0) (d s0) (s s0) (f s0) (m s0) (p s0) (c s0) (ad s0) v (ad2 s0) (oreg s0) (zz s0) (ade s0).
-  Definition set_ad2 v s0 := mkSt (x s0) (t s0) (l s0) (d s0) (s s0) (f s0) (m s0) (p s0) (c s0) (ad s0) (y s0) v (oreg s0) (zz s0) (ade s0).
-  Definition set_oreg v s0 := mkSt (x s0) (t s0) (l s0) (d s0) (s s0) (f s0) (m s0) (p s0) (c s0) (ad s0) (y s0) (ad2 s0) v (zz s0) (ade s0).
-  Definition set_zz v s0 := mkSt (x s0) (t s0) (l s0) (d s0) (s s0) (f s0) (m s0) (p s0) (c s0) (ad s0) (y s0) (ad2 s0) (oreg s0) v (ade s0).
-  Definition set_ade v s0 := mkSt (x s0) (t s0) (l s0) (d s0) (s s0) (f s0) (m s0) (p s0) (c s0) (ad s0) (y s0) (ad2 s0) (oreg s0) (zz s0) v.
+  Definition set_x v s0 := mkSt v (t s0) (l s0) (d s0) (s s0) (f s0) (m s0) (p s0) (c s0) (ad s0) (y s0) (ad2 s0) (oreg s0) (zz s0) (ade s0) (pv s0) (dpv s0).
+  Definition set_t v s0 := mkSt (x s0) v (l s0) (d s0) (s s0) (f s0) (m s0) (p s0) (c s0) (ad s0) (y s0) (ad2 s0) (oreg s0) (zz s0) (ade s0) (pv s0) (dpv s0).
+  Definition set_l v s0 := mkSt (x s0) (t s0) v (d s0) (s s0) (f s0) (m s0) (p s0) (c s0) (ad s0) (y s0) (ad2 s0) (oreg s0) (zz s0) (ade s0) (pv s0) (dpv s0).
+  Definition set_d v s0 := mkSt (x s0) (t s0) (l s0) v (s s0) (f s0) (m s0) (p s0) (c s0) (ad s0) (y s0) (ad2 s0) (oreg s0) (zz s0) (ade s0) (pv s0) (dpv s0).
+  Definition set_s v s0 := mkSt (x s0) (t s0) (l s0) (d s0) v (f s0) (m s0) (p s0) (c s0) (ad s0) (y s0) (ad2 s0) (oreg s0) (zz s0) (ade s0) (pv s0) (dpv s0).
+  Definition set_f v s0 := mkSt (x s0) (t s0) (l s0) (d s0) (s s0) v (m s0) (p s0) (c s0) (ad s0) (y s0) (ad2 s0) (oreg s0) (zz s0) (ade s0) (pv s0) (dpv s0).
+  Definition set_m v s0 := mkSt (x s0) (t s0) (l s0) (d s0) (s s0) (f s0) v (p s0) (c s0) (ad s0) (y s0) (ad2 s0) (oreg s0) (zz s0) (ade s0) (pv s0) (dpv s0).
+  Definition set_p v s0 := mkSt (x s0) (t s0) (l s0) (d s0) (s s0) (f s0) (m s0) v (c s0) (ad s0) (y s0) (ad2 s0) (oreg s0) (zz s0) (ade s0) (pv s0) (dpv s0).
+  Definition set_c v s0 := mkSt (x s0) (t s0) (l s0) (d s0) (s s0) (f s0) (m s0) (p s0) v (ad s0) (y s0) (ad2 s0) (oreg s0) (zz s0) (ade s0) (pv s0) (dpv s0).
+  Definition set_ad v s0 := mkSt (x s0) (t s0) (l s0) (d s0) (s s0) (f s0) (m s0) (p s0) (c s0) v (y s0) (ad2 s0) (oreg s0) (zz s0) (ade s0) (pv s0) (dpv s0).
+  Definition set_y v s0 := mkSt (x s0) (t s0) (l s0) (d s0) (s s0) (f s0) (m s0) (p s0) (c s0) (ad s0) v (ad2 s0) (oreg s0) (zz s0) (ade s0) (pv s0) (dpv s0).
+  Definition set_ad2 v s0 := mkSt (x s0) (t s0) (l s0) (d s0) (s s0) (f s0) (m s0) (p s0) (c s0) (ad s0) (y s0) v (oreg s0) (zz s0) (ade s0) (pv s0) (dpv s0).
+  Definition set_oreg v s0 := mkSt (x s0) (t s0) (l s0) (d s0) (s s0) (f s0) (m s0) (p s0) (c s0) (ad s0) (y s0) (ad2 s0) v (zz s0) (ade s0) (pv s0) (dpv s0).
+  Definition set_zz v s0 := mkSt (x s0) (t s0) (l s0) (d s0) (s s0) (f s0) (m s0) (p s0) (c s0) (ad s0) (y s0) (ad2 s0) (oreg s0) v (ade s0) (pv s0) (dpv s0).
+  Definition set_ade v s0 := mkSt (x s0) (t s0) (l s0) (d s0) (s s0) (f s0) (m s0) (p s0) (c s0) (ad s0) (y s0) (ad2 s0) (oreg s0) (zz s0) v (pv s0) (dpv s0).
+
+  Definition set_pv v s0 := mkSt (x s0) (t s0) (l s0) (d s0) (s s0) (f s0) (m s0) (p s0) (c s0) (ad s0) (y s0) (ad2 s0) (oreg s0) (zz s0) (ade s0) v (dpv s0).
+  Definition set_dpv v s0 := mkSt (x s0) (t s0) (l s0) (d s0) (s s0) (f s0) (m s0) (p s0) (c s0) (ad s0) (y s0) (ad2 s0) (oreg s0) (zz s0) (ade s0) (pv s0) v.
 
   Definition raise (e : exn) (s0 : st) : st * outcome * list logent := (s0, Raise e, []).
   Definition done (s1 : st) (lg : list logent) : st * outcome * list logent := (s1, Ok, lg).
@@ -360,6 +369,33 @@ Section WithCallbacks.
                     | Some e => raise e s0
                     | None => done (set_ad2 (adapt_value n v) s0) []
                     end
+        end
+    | SetPV v =>                                  (* ctraits.c setattr_delegate (modify=False): the prototype's trait
+                                                    validates, setattr_trait stores on the object itself, then the
+                                                    delegate listener is unhooked *)
+        match call_vld pl 0 v with
+        | RRaise e => raise e s0
+        | ROk y =>
+            let old := match pv s0 with Some o => o | None => dpv s0 end in
+            if Z.eqb y old then done (set_pv (Some y) s0) []
+            else done (set_pv (Some y) s0) (run_handlers pl [H_pv_dynamic] old y)
+        end
+    | SetDPV v =>
+        match call_vld pl 0 v with
+        | RRaise e => raise e s0
+        | ROk y =>
+            if Z.eqb y (dpv s0) then done s0 []
+            else done (set_dpv y s0)
+                      (match pv s0 with
+                       | None => run_handlers pl [H_pv_dynamic] (dpv s0) y   (* linked: the listener forwards the change *)
+                       | Some _ => []
+                       end)
+        end
+    | DelPV =>
+        match pv s0 with
+        | None => done s0 []
+        | Some o => if Z.eqb o (dpv s0) then done (set_pv None s0) []
+                    else done (set_pv None s0) (run_handlers pl [H_pv_dynamic] o (dpv s0))
         end
     end.
 
